@@ -392,6 +392,13 @@ def run_life(prop, tier, seed, keep=False):
             summarize_trace(w.path("trace.ndjson"), ev, "")
             rc = trace_validate(w, prop, ["C11", "C06", "C01", "C04"], "trace.ndjson", ev, label="once-scenarios")
         if rc == 0 and prop == "C11":
+            # a run-once TARGET used through its redefinition (three calls) and then called directly: one execution in all
+            n = 600 if tier == "quick" else 6000
+            w.run_drive(["gen", "-profile", "onceredef", "-n", str(n), "-seed", str(seed + 11), "-out", "scenarios.json"])
+            r = w.run_drive(["run", "-in", "scenarios.json", "-reps", "3", "-seed", str(seed), "-out", "trace.ndjson"])
+            log(r.stderr.strip())
+            rc = trace_validate(w, prop, ["C11", "C06"], "trace.ndjson", ev, label="once-target-redefined")
+        if rc == 0 and prop == "C11":
             rc = once_stage(w, tier, seed, ev)
         ev.cov["exhaustive"] = True
         ev.cov["distinct_nontrivial"] = max(ev.cov.get("distinct_nontrivial", 0), ev.cov.get("histories", 0))
